@@ -201,6 +201,8 @@ def run(ctx):
         "Eval vm_compute in (t_dead_modules tables0).",
         "Eval vm_compute in (all_consts c_enums).",
         "Eval vm_compute in (setter_getter_mismatch py_classes py_props py_getter_reads).",
+        "Eval vm_compute in (map (fun e => let '(c, p, a, k, _) := e in (c, p, a, k)) (unguarded_loop_exits py_loop_exits)).",
+        "Eval vm_compute in (search_mismatch py_loop_search).",
     ]) + "\n"
     # the model files must be compiled for this (they are unless regeneration produced something Coq rejects)
     vlib.coq_make(["C18/Tables.vo", "Gen/Structs.vo", "Gen/PyMirror.vo"], 600)
@@ -209,7 +211,7 @@ def run(ctx):
     if okc:
         try:
             vals = eval_blocks(outc)
-            if len(vals) != 14:
+            if len(vals) != 16:
                 vals = None
         except ValueError as e:
             outc += "\nparse error: %r" % (e,)
@@ -218,7 +220,7 @@ def run(ctx):
     ctx.obligation("ground-truth: gcc compiles the offsetof/sizeof/enum program against the current headers", truth is not None, err)
     if vals is None or truth is None:
         return
-    (c_lines, py_lines, name_pairs, option_pairs, mdevs, odevs, shadow, badset, missing, classes, symbols, dead, consts, sgm) = vals
+    (c_lines, py_lines, name_pairs, option_pairs, mdevs, odevs, shadow, badset, missing, classes, symbols, dead, consts, sgm, ule, smm) = vals
     coff, csize, enum = truth
 
     # ---- correspondence 1: Coq SysV model == gcc
@@ -329,6 +331,18 @@ def run(ctx):
             reported.add(k)
             ctx.violation(k, {"class": cls, "property": prop, "attribute": attr}, False,
                           "setter of %s.%s assigns field %s, which its getter does not read (getter and setter name different C members)" % (cls, prop, attr))
+    for cls, prop, acc, kind in ule:
+        k = "mirror:%s.%s" % (cls, prop)
+        if k not in reported:
+            reported.add(k)
+            ctx.violation(k, {"class": cls, "property": prop, "accessor": acc, "statement": kind}, False,
+                          "%s of %s.%s leaves its for-loop by an unconditional %s: only the first array element is ever inspected" % (acc, cls, prop, kind))
+    for cls, prop in smm:
+        k = "mirror:%s.%s" % (cls, prop)
+        if k not in reported:
+            reported.add(k)
+            ctx.violation(k, {"class": cls, "property": prop}, False,
+                          "getter and setter of %s.%s search the C array with different conditions" % (cls, prop))
     for mod, sym in missing:
         k = "symbol:%s" % sym
         if k not in reported:
